@@ -408,6 +408,16 @@ fn explore(ctx: &Ctx) -> Outcome {
                     f7.push(Case { cfg, title: "t".into(), entries: vec![(format!("MPID_{}", x), "1".into()), (format!("MPID_{}", y), "2".into()), (x.clone(), y.clone())], loaded: None });
                 }
             }
+            // key pairs that collide under common 32-bit hashes / stand in a suffix relation
+            let mut pairs: Vec<(String, String)> = vcore::collide::pairs().iter().map(|(_, a, b)| (a.clone(), b.clone())).collect();
+            pairs.extend(sjis::suffix_pairs());
+            for (a, b) in pairs {
+                if a.is_empty() || b.is_empty() {
+                    continue;
+                }
+                f7.push(Case { cfg, title: a.clone(), entries: vec![(a.clone(), "first".into()), (b.clone(), "second".into()), ("K".into(), b.clone())], loaded: None });
+                f7.push(Case { cfg, title: b.clone(), entries: vec![(b.clone(), a.clone()), (a.clone(), b.clone())], loaded: None });
+            }
             for k in 0..=dl {
                 let unit = if cfg.fmt == Fmt::Unicode { "aé日😀" } else { "a日ｿソn" };
                 let m: String = unit.chars().cycle().take(k).collect();
